@@ -216,15 +216,49 @@ def run(F, R, tier):
     R.floor("C06.R1", n_ext, 8, "uid / pid extraction uses in the C program")
 
     # ------------------------------------------------------------------ R2
-    def find_lookup_var(fn, mapname):
-        """variables initialised with bpf_map_lookup_elem(&mapname, &key) -> {var: keyvar}"""
+    def key_fields(fn, kv):
         out = {}
+        for n in walk(fn):
+            if n.get("kind") == "BinaryOperator" and n.get("opcode") == "=":
+                lhs = expr_str(n["inner"][0])
+                if lhs.startswith(kv + "."):
+                    out[lhs[len(kv) + 1:]] = expr_str(n["inner"][1])
+        return out
+
+    def clean_key(e):
+        return expr_str(e).replace("&(", "").replace(")", "").replace("&", "")
+
+    def lookup_wrappers(mapname):
+        """static helpers whose only result is `return bpf_map_lookup_elem(&mapname, &key)` with the key's fields assigned from their
+        parameters: {helper: ([param names], {key field: expression over the parameters})}"""
+        out = {}
+        for fname, fn in fns.items():
+            rets = [n for n in walk(fn) if n.get("kind") == "ReturnStmt" and n.get("inner")]
+            if len(rets) != 1:
+                continue
+            e = strip(rets[0]["inner"][0])
+            if e.get("kind") == "CallExpr" and strip(e["inner"][0]).get("ref") == "bpf_map_lookup_elem" and mapname in expr_str(e["inner"][1]):
+                params = [c.get("name") for c in fn.get("inner", []) if c.get("kind") == "ParmVarDecl"]
+                out[fname] = (params, key_fields(fn, clean_key(e["inner"][2])))
+        return out
+
+    def find_lookup_var(fn, mapname):
+        """variables initialised with bpf_map_lookup_elem(&mapname, &key), directly or through a lookup helper -> {var: {key field: value}}"""
+        out = {}
+        wr = lookup_wrappers(mapname)
         for n in walk(fn):
             if n.get("kind") == "VarDecl" and n.get("inner"):
                 init = strip(n["inner"][-1])
-                if init.get("kind") == "CallExpr" and strip(init["inner"][0]).get("ref") == "bpf_map_lookup_elem":
+                if init.get("kind") != "CallExpr":
+                    continue
+                callee = strip(init["inner"][0]).get("ref")
+                if callee == "bpf_map_lookup_elem":
                     if mapname in expr_str(init["inner"][1]):
-                        out[n["name"]] = expr_str(init["inner"][2]).replace("&(", "").replace(")", "").replace("&", "")
+                        out[n["name"]] = key_fields(fn, clean_key(init["inner"][2]))
+                elif callee in wr:
+                    params, kf = wr[callee]
+                    args = dict(zip(params, [expr_str(a) for a in init["inner"][1:]]))
+                    out[n["name"]] = {f: args.get(v, v) for f, v in kf.items()}
         return out
 
     av = fns.get("authorize_v4")
@@ -251,14 +285,9 @@ def run(F, R, tier):
                     "to the policy's value" % name,
                     "ctx->%s rewrite `%s` holds under %s" % (name, expr_str(n), sorted(fs)))
         # the policy key is built from this connect's own destination
-        keyvars = set(pol.values())
         assigned = {}
-        for n in walk(av):
-            if n.get("kind") == "BinaryOperator" and n.get("opcode") == "=":
-                lhs = expr_str(n["inner"][0])
-                for kv in keyvars:
-                    if lhs.startswith(kv + "."):
-                        assigned[lhs[len(kv) + 1:]] = expr_str(n["inner"][1])
+        for kf in pol.values():
+            assigned.update(kf)
         exp = {"destination_ip.ipv4": "ctx->user_ip4", "destination_port": "ctx->user_port", "protocol": "ctx->protocol"}
         R.check(assigned == exp, "C06.R2", "C06.R2:authorize_v4:policy-key", src, "policy key = (ctx->user_ip4, ctx->user_port, ctx->protocol)",
                 "policy key fields: %s" % assigned)
